@@ -1545,6 +1545,29 @@ func ruleOneSubPerRID(c *Ctx) {
 				if lookupOKField(p, v, 0) == fSubs {
 					return neg, true
 				}
+				// `sub := c.subs[rid]; if sub == nil` — a nil entry is as good as none
+				if b, ok := i.Cond.(*ssa.BinOp); ok && (b.Op == token.EQL || b.Op == token.NEQ) {
+					x := b.X
+					if isNilConst(x) {
+						x = b.Y
+					} else if !isNilConst(b.Y) {
+						x = nil
+					}
+					var lk *ssa.Lookup
+					switch y := x.(type) {
+					case *ssa.Lookup:
+						lk = y
+					case *ssa.Extract:
+						if l, ok := y.Tuple.(*ssa.Lookup); ok && y.Index == 0 {
+							lk = l
+						}
+					}
+					if lk != nil {
+						if f, _ := fieldLoad(lk.X); f == fSubs {
+							return b.Op == token.EQL, true
+						}
+					}
+				}
 				return false, false
 			}
 			c.check(p.guardedUp(mu, absent, 0), fnName(fn), "a subscription is registered under a resource ID only where the lookup of that ID found none", p.InstrPos(mu),
